@@ -38,6 +38,7 @@ type End struct {
 	LibAlive []string // threads spawned by the code under test that did not finish
 	Steps    int
 	Pruned   bool
+	Livelock bool     // the step limit was reached: some thread of the code under test spins without ever blocking
 	NewFds   []string // descriptors on regular paths that appeared during the execution and are still open
 }
 
@@ -51,6 +52,8 @@ type Scenario struct {
 	Check func(x *X, e *End) []Violation
 	// Outcome summarises what was observable (distinct-outcome counting).
 	Outcome func(x *X, e *End) string
+	// LivelockIsVerdict: reaching the step limit means the code under test spins (the scenario's own steps are bounded)
+	LivelockIsVerdict bool
 	// CountFds: compare the process's descriptors on regular paths before and after (leak detection beyond the inotify seam)
 	CountFds bool
 }
@@ -157,7 +160,12 @@ func RunOnce(sc *Scenario, prefix []int, keep bool, onStep func(*vsched.Sched, *
 		}
 		sort.Strings(e.NewFds)
 	}
-	if ee := s.EngineErr(); ee != nil {
+	if ee := s.EngineErr(); ee != nil && strings.HasPrefix(ee.Msg, "step limit") && sc.LivelockIsVerdict {
+		// a spinning thread of the code under test, not an engine problem: let the scenario judge it
+		e.Livelock = true
+		res.Violations = sc.Check(x, e)
+		res.Outcome = "livelock"
+	} else if ee != nil {
 		res.EngineErr = ee.Msg
 	} else if !s.Pruned {
 		res.Violations = sc.Check(x, e)
